@@ -178,6 +178,10 @@ def generate(rng, tier):
         if tier != "quick" and rng.random() < 0.7:
             mx = 7          # most thorough cases stay small: ties and empty sides live there
         cases.append(_gen_case(rng, cls, mx))
+    # decimal-grid pairs are cheap (1-3 points): a dedicated block, because a wrong rounding
+    # direction shows on only a few percent of them
+    for _ in range(150 if tier == "quick" else 2000):
+        cases.append(_gen_case(rng, "decimal", 3))
     return cases
 
 
@@ -201,6 +205,9 @@ def corpus():
         {"S": [[0.0, 4.0], [0.0, 0.0]], "T": [[0.0, 0.5], [0.0, 4.0]], "family": "exact", "rep": "array"},
         # negative coordinates with an empty side: the placeholder (0,0) must stay neutral
         {"S": [[-7.0, -6.5]], "T": [], "family": "exact", "rep": "array"},
+        # decimal coordinates, symmetric widening: the distance is a half-persistence difference up to rounding
+        {"S": [[0.0, 1.0]], "T": [[-0.1, 1.1]], "family": "tol", "rep": "array"},
+        {"S": [[0.3, 0.9]], "T": [[0.1, 1.1]], "family": "tol", "rep": "array"},
     ]
     d = core.VERIF / "corpus" / PID
     if d.is_dir():
